@@ -1099,6 +1099,23 @@ class TwoDSpectrumBase(DataSaveable):
             identify the pathway
             
         """
+        # the data are added to one cell of the storage; which data a later
+        # read returns (the total, unless asked otherwise) does not change
+        if self.current_tag is None:
+            flag_saved = self.current_dtype
+        else:
+            flag_saved = [self.current_dtype, self.current_tag]
+        try:
+            self._add_data_to_cell(data, resolution=resolution,
+                                   dtype=dtype, tag=tag)
+        finally:
+            self.set_data_flag(flag_saved)
+
+
+    def _add_data_to_cell(self, data, resolution=None, dtype=_total, tag=None):
+        """Adds data to the cell of the storage given by dtype and tag
+        
+        """
         if not self.storage_initialized:
             self._d__data = {}
             self.storage_initialized =  True
@@ -1619,8 +1636,16 @@ class TwoDResponse(TwoDSpectrumBase, Saveable):
         twod.set_t2(self.t2)
         
         twod.set_data_type(dtype)
-        self.set_data_flag(dtype)
-        twod.set_data(numpy.array(self.d__data[:,:]), dtype=dtype)
+        # reading a view does not change which data a later read returns
+        if self.current_tag is None:
+            flag_saved = self.current_dtype
+        else:
+            flag_saved = [self.current_dtype, self.current_tag]
+        try:
+            self.set_data_flag(dtype)
+            twod.set_data(numpy.array(self.d__data[:,:]), dtype=dtype)
+        finally:
+            self.set_data_flag(flag_saved)
 
         return twod
 
